@@ -54,7 +54,9 @@ def impl(case, how="array"):
         b = BADS(f, *args, options={"display": "off", "random_seed": 1})
         vt = b.var_transf
         norm = {"x0": [float(v) for v in np.ravel(b.x0)], "lb": [float(v) for v in np.ravel(vt.orig_lb)], "ub": [float(v) for v in np.ravel(vt.orig_ub)],
-                "plb": [float(v) for v in np.ravel(vt.orig_plb)], "pub": [float(v) for v in np.ravel(vt.orig_pub)]}
+                "plb": [float(v) for v in np.ravel(vt.orig_plb)], "pub": [float(v) for v in np.ravel(vt.orig_pub)],
+                # the problem BADS actually works on: internal (transformed) bounds and the gridised start point
+                "int": [[float(v) for v in np.ravel(a)] for a in (b.lower_bounds, b.upper_bounds, b.plausible_lower_bounds, b.plausible_upper_bounds, b.u)]}
         return "ok", norm, calls[0], ""
     except ValueError as ex:
         return "ValueError", None, calls[0], str(ex)[:80]
@@ -90,16 +92,20 @@ def gen_cases(ctx):
         full1 = [c for c in full1 if rng.random() < 0.12]
     for x0, lb, ub, plb, pub in full1:
         cases.append({"D": 1, **{k: (None if v == "absent" else [v]) for k, v in zip(("x0", "lb", "ub", "plb", "pub"), (x0, lb, ub, plb, pub))}})
-    # D = 2, 3: coordinates drawn from per-coordinate tuples with consistent presence
+    # D = 2, 3: coordinates drawn from per-coordinate tuples with consistent presence (each tuple also on its own, D = 1)
     coords = [(0.5, -2., 2., -1., 1.), (0.5, -inf, inf, -1., 1.), (0.5, -2., inf, -1., 1.), (0.5, -inf, 2., -1., 1.), (-2., -2., 2., -1., 1.), (nan, -2., 2., -1., 1.),
               (0.5, -2., 2., -2., 2.), (5., -2., 2., -1., 1.), (0.5, -2., 2., 1., -1.), (0.5, 0., 0., 0., 0.), (0.5, -2., 2., 0., 0.), (1.5, -2., 2., -1., 1.),
               (0.5, -2., 2., -3., 1.), (0.5, -inf, inf, -inf, 1.), (2., -2., 2., -1., 1.), (0.5, -2., 2., -1.9999, -1.9998), (0.5, 2. - 4e-16, 2., 2. - 4e-16, 2.),
               (0.5, nan, 2., -1., 1.), (0.5, -2., 2., nan, 1.), (0.05, 0.01, 100., 0.1, 10.), (1e11, 1., 1e12, 10., 1e11), (3., -2., 2., -1., 1.),
+              # integral values on a log-scale coordinate (int spellings must give the same internal problem)
+              (50., 1., 1000., 10., 100.), (5., 1., 100., 2., 50.),
               # a hard bound that is exactly zero, start point on it / within the 0.1% margin of it
               (0., -2., 0., -1.5, -0.5), (0., 0., 2., 0.5, 1.5), (-1e-9, -2., 0., -1.5, -0.5), (1e-9, 0., 2., 0.5, 1.5), (-1., -2., 0., -1.5, -0.5)]
     present = [(1, 1, 1, 1, 1), (0, 1, 1, 1, 1), (1, 0, 0, 1, 1), (1, 1, 1, 0, 0), (0, 1, 1, 0, 0), (1, 0, 0, 0, 0), (0, 0, 0, 1, 1), (1, 1, 1, 0, 1), (0, 0, 0, 0, 0), (1, 1, 0, 1, 1)]
     # D = 2: EVERY ordered pair of coordinate tuples with all vectors present (so that cross-coordinate effects of the
     # any()/sum() style tests are met), then random pairs/triples with the presence patterns
+    for c1 in coords:
+        cases.append({"D": 1, **{k: [c1[j]] for j, k in enumerate(("x0", "lb", "ub", "plb", "pub"))}})
     for c1 in coords:
         for c2 in coords:
             c = {"D": 2}
@@ -187,6 +193,9 @@ def check_cases(ctx, cases, rep, tag="case"):
             same = out2 == out and (norm2 is None or all(np.array_equal(np.array(norm2[k]), np.array(norm[k]), equal_nan=True) for k in ("lb", "ub", "plb", "pub")))
             if same and norm2 is not None and all(v != "nan" for v in (m.get("ok") or {"x0": ["nan"]})["x0"]):
                 same = np.array_equal(np.array(norm2["x0"]), np.array(norm["x0"]))
+                if same and not all(np.array_equal(np.array(a), np.array(b_), equal_nan=True) for a, b_ in zip(norm2["int"], norm["int"])):
+                    same = False
+                    msg2 = f"internal problem (lb, ub, plb, pub, u0) {norm2['int']} vs {norm['int']}"
             if not same:
                 rep.violation("spelling_irrelevant", "bads.py:__init__ input handling", f"{tag}: spelling '{how}' of the same vectors gives {out2} {msg2} / {norm2} instead of {out} / {norm}; {desc}", case)
     return stats
